@@ -29,7 +29,7 @@ FLOORS = {"quick": {"fault_points_raised": 4000, "snapshots_compared": 4000, "fi
 CASE_TIMEOUT_S = 600
 
 NATURAL = ["setitem_bad_index", "add_shape", "bad_index", "bad_axis", "bad_reshape", "setitem_shape", "aug_shape", "readonly_target", "out_arr_shape", "out_tensor_shape",
-           "where_shape", "bad_dtype", "int_constant_false", "setshape_bad", "einsum_mismatch", "concat_mismatch", "matmul_mismatch"]
+           "where_shape", "bad_dtype", "int_constant_false", "setshape_bad", "einsum_mismatch", "concat_mismatch", "matmul_mismatch", "bad_operand_ragged", "bad_operand_none", "bad_operand_str", "bad_operand_dtypeobj"]
 INJECTED = [("inj_op", "before"), ("inj_op", "after"), ("inj_view", "before"), ("inj_view", "after"), ("inj_setitem", "before"),
             ("inj_setitem", "after"), ("inj_aug", "before"), ("inj_aug", "after"), ("inj_out", "before"), ("inj_out", "after")]
 
@@ -58,6 +58,12 @@ def fault_stmt(kind, t, shape, rng, mode=None):
         return {"k": "call", "out": "__f", "fn": rng.choice(["sum", "mean", "max", "cumsum"]), "a": [R], "kw": {"axis": len(shape) + 2}, "sp": "mg"}
     if kind == "bad_reshape":
         return {"k": "call", "out": "__f", "fn": "reshape", "a": [R, ["t", [n + 1]]], "sp": rng.choice(["mg", "meth"])}
+    if kind.startswith("bad_operand_"):
+        # an operand that cannot be cast to a tensor, placed AFTER a tensor operand (which has been seen - and locked - by then)
+        bad_op = {"ragged": ["l", [["l", [1.0, 2.0]], ["l", [3.0]]]], "none": None, "str": "abc", "dtypeobj": ["dt", "float64"]}[kind[len("bad_operand_"):]]
+        fn = rng.choice(["multiply", "add", "maximum", "add_sequence"])
+        args = [R, bad_op] if fn != "add_sequence" else [R, R, bad_op]
+        return {"k": "call", "out": "__f", "fn": fn, "a": args, "sp": rng.choice(["mg", "mg", "op"]) if fn in ("multiply", "add") else "mg"}
     if kind == "setitem_shape":
         return {"k": "setitem", "tgt": t, "index": ["e"], "value": badarr}
     if kind == "setitem_bad_index":   # IndexError (not ValueError) from an in-place statement
